@@ -169,6 +169,10 @@ def programs(rng, tier):
         nv = rng.choice([3, 4, 4, 5, 6, 8])
         a, b = rand_operand(rng, nv, 0.15), rand_operand(rng, nv, 0.15)
         fa, fb, fo = (rand_optvar(rng, nv, 0.6) for _ in range(3))
+        if rng.random() < 0.12:      # the same operand (one object in the harness) on both sides, equal or different flips
+            b = a
+            if rng.random() < 0.5:
+                fa = fb = rng.randrange(nv)
         progs.append(family(a, b, partial_table(rng, rng.choice(CONNS)), fa, fb, fo, maxlim=min(40, len(a) * len(b) + 4)))
     # limits that do not fit 32 bits (the result is small: every such limit must answer Some / the count)
     for _ in range(12 if tier == "quick" else 300):
@@ -209,6 +213,26 @@ def cmp_implies_programs(rng, tier):
         if rng.random() < 0.05:
             b = random_bdd(rng, nv + 1)
         P.add(["cmp_implies", bdd_sx(a), bdd_sx(b)])
+    # constants in non-canonical form (a valid diagram of a constant with redundant decision nodes: `is_true()`/`is_false()`,
+    # which look at the node count only, do not recognise it) against canonical constants and ordinary functions
+    def nc_constant(nv, value):
+        nodes = [(nv, 0, 0), (nv, 1, 1)]
+        t = 1 if value else 0
+        vs = sorted(rng.sample(range(nv), rng.randint(1, min(3, nv))), reverse=True)
+        cur = t
+        for x in vs:
+            nodes.append((x, cur, cur) if cur >= 2 or rng.random() < 0.6 else (x, t, t))
+            cur = len(nodes) - 1
+        return nodes
+    for _ in range(60 if tier == "quick" else 1500):
+        nv = rng.choice([1, 2, 3, 4, 6])
+        v1, v2 = rng.random() < 0.5, rng.random() < 0.5
+        const = lambda v: [(nv, 0, 0), (nv, 1, 1)] if v else [(nv, 0, 0)]
+        others = [const(v2), nc_constant(nv, v2), random_bdd(rng, nv)]
+        a, b = nc_constant(nv, v1), rng.choice(others)
+        P.add(["cmp_implies", bdd_sx(a), bdd_sx(b)])
+        P.add(["cmp_implies", bdd_sx(b), bdd_sx(a)])
+        P.add(["cmp_implies", bdd_sx(const(v1)), bdd_sx(nc_constant(nv, v2))])
     # cmp_implies on medium-sized, structurally different but comparable operands
     for _ in range(150 if tier == "quick" else 4000):
         nv = rng.choice([5, 6, 7, 8, 9])
